@@ -888,6 +888,18 @@ func specTextsOK(fb *functionBuilder) bool {
 	return len(fb.fn.Text) <= 65536 && (len(fb.fn.Text) < 65536 || len(fb.text.txt) == 0)
 }
 
+// Operand C of a Text instruction: 0 outside a URL, 1 inside, 2 inside a URL
+// whose "set" flag is on.
+func specTextFlag(inURL, isURLSet bool) int8 {
+	if !inURL {
+		return 0
+	}
+	if isURLSet {
+		return 2
+	}
+	return 1
+}
+
 // emitText: a text either joins the pending pieces (same instruction) or, after
 // a flush, starts a new Text instruction whose operand is the index the text
 // will get in fn.Text.
@@ -901,6 +913,8 @@ func specTextsOK(fb *functionBuilder) bool {
 //@   ensures[C15] len(fb.text.txt) >= 1 && sliceEq(fb.text.txt[len(fb.text.txt)-1], txt)
 //@   ensures[C15] len(fb.fn.Body) == old(len(fb.fn.Body)) || len(fb.fn.Body) == old(len(fb.fn.Body)) + 1
 //@   ensures[C15] len(fb.fn.Body) == old(len(fb.fn.Body)) ==> len(fb.text.txt) == old(len(fb.text.txt)) + 1 && len(fb.fn.Text) == old(len(fb.fn.Text))
-//@   ensures[C15] len(fb.fn.Body) == old(len(fb.fn.Body)) + 1 ==> len(fb.text.txt) == 1
+//@   ensures[C15] len(fb.fn.Body) == old(len(fb.fn.Body)) ==> old(len(fb.text.txt)) > 0 && inURL == old(fb.text.inURL)
+//@   ensures[C15] len(fb.fn.Body) == old(len(fb.fn.Body)) + 1 ==> len(fb.text.txt) == 1 && fb.text.inURL == inURL
+//@   ensures[C15] len(fb.fn.Body) == old(len(fb.fn.Body)) + 1 ==> fb.fn.Body[len(fb.fn.Body)-1].C == specTextFlag(inURL, isURLSet)
 //@   ensures[C15] len(fb.fn.Body) == old(len(fb.fn.Body)) + 1 ==> fb.fn.Body[len(fb.fn.Body)-1].Op == runtime.OpText
 //@   ensures[C15] len(fb.fn.Body) == old(len(fb.fn.Body)) + 1 ==> int(decodeUint16(fb.fn.Body[len(fb.fn.Body)-1].A, fb.fn.Body[len(fb.fn.Body)-1].B)) == len(fb.fn.Text)
